@@ -454,7 +454,7 @@ def job_rs_limit(a, acc):
                     continue
                 case_rs_limit(acc, {"kind": "rs_limit1", "dir": "recv", "role": role, "sid": sid,
                                     "exp": exp, "L": L, "variant": variant})
-    if acc.fw == "tx" and a.get("tier") == "thorough" and exp < 12:
+    if acc.fw == "tx" and ((a.get("tier") == "thorough" and exp < 12) or exp in (1, 2)):
         # maximum sizes that are not powers of two: announced = next power of two
         size = limit - 24
         if size >= 512:
@@ -560,8 +560,10 @@ def case_rs_limit(acc, a):
         else:
             acc.inc("limit_recv_ok|%s|%s" % (sid.partition(".")[0], fw))
     elif L <= ann.max_len:
+        # above the configured value but within what this endpoint ANNOUNCED: a peer that obeys the
+        # announced maximum may send it, so it must be delivered
         acc.inc("limit_recv_between_configured_and_announced")
-        if not closing and msgs != [m.marshal()]:
+        if closing or esc or msgs != [m.marshal()]:
             acc.bad("C13|within-announced-receive-lost|%s" % tag, d, a)
     else:
         if not closing:
